@@ -110,11 +110,24 @@ def _fail(msg):
 REPAIRS = {0: ("bad", "a", "k"), 3: None, 6: ("bad", "a", "big"), 7: ("bad", "b", None), 21: ("bad", "b", None), 1: ("bad", "a", "k"), 11: ("bad", "b", None), 13: ("bad", "a", "k")}
 
 
-def _planted(fault, level, cont, w):
+def _via_array(top_d):
+    """the parent reaches the (offending) Mid through an InstanceArray of 2 instead of a plain Instance"""
+    from vlib.dsl import Sig
+    i0 = top_d.insts[0]
+    i0.kind, i0.n = "array", 2
+    i0.conns = {"a": Sig("big"), "g": Sig("t")}
+    return top_d
+
+
+def _planted(fault, level, cont, w, via=0):
     """a real design fault (C02 planter) caught by whichever pass detects it"""
     from vlib.dsl import ref_valid, Sig
     env._reset_all()
     top_d = c02.plant(fault, level, 1, w, 2)
+    if via:
+        if level == 0 or fault in (17, 19):
+            return True  # (the array variant concerns faults below the top; cycles / name clashes keep the plain instance)
+        _via_array(top_d)
     if ref_valid(top_d):
         return True
     b = Builder()
@@ -171,10 +184,15 @@ def _planted(fault, level, cont, w):
         # the designer replaces the offending module: the parent's instance of it now refers to a valid module
         # (which itself uses no-connects, port references, bundles, an array and a pair). The edited parent no longer
         # contains the offending module and must elaborate to what a fresh process gives for the same program.
-        if level == 0:
-            return True  # the offending module is the top itself
+        if level == 0 or via:
+            # level 0: the offending module is the top itself.  via: once the array has been flattened the parent holds
+            # instances the designer never wrote, so "replace the instance" is not expressible - not a continuation here.
+            return True
         try:
-            m.m0 = b.bmod(_fresh_mid(top_d, w))(a=m.s, g=m.t)
+            if via:
+                m.m0 = h.InstanceArray(of=b.bmod(_fresh_mid(top_d, w)), n=2)(a=m.big, g=m.t)
+            else:
+                m.m0 = b.bmod(_fresh_mid(top_d, w))(a=m.s, g=m.t)
         except Exception as e:
             # (a name clash is detected by the exporter, after elaboration succeeded: elaborated modules refuse edits)
             return "after elaboration" in str(e) or _fail("replacing the offending instance raised: " + _norm(e)[:200])
@@ -184,9 +202,14 @@ def _planted(fault, level, cont, w):
             return _fail("a design no longer containing the offending module raised: " + _norm(e)[-300:])
         env._reset_all()
         top_t = c02.plant(fault, level, 1, w, 2)
+        if via:
+            _via_array(top_t)
         bt = Builder()
         mt = bt.bmod(top_t)
-        mt.m0 = bt.bmod(_fresh_mid(top_t, w))(a=mt.s, g=mt.t)
+        if via:
+            mt.m0 = h.InstanceArray(of=bt.bmod(_fresh_mid(top_t, w)), n=2)(a=mt.big, g=mt.t)
+        else:
+            mt.m0 = bt.bmod(_fresh_mid(top_t, w))(a=mt.s, g=mt.t)
         return got == _bytes(mt) or _fail("the edited design exported something a fresh process would not")
     # cont == 3: repair the planted fault and retry: fresh result or an exception, never something else
     rep = REPAIRS.get(fault)
@@ -281,17 +304,17 @@ def injected_pass(p, mi, cont, w):
         return _injected(p, mi, cont, w)
 
 
-@harness("C08", args="fault: int, level: int, cont: int, w: int", pre=[f"0 <= fault < {c02.NFAULT}", "0 <= level <= 1", "0 <= cont <= 4", "1 <= w <= 2"],
+@harness("C08", args="fault: int, level: int, cont: int, w: int, via: int", pre=[f"0 <= fault < {c02.NFAULT}", "0 <= level <= 1", "0 <= cont <= 4", "1 <= w <= 2", "0 <= via <= 1"],
          tiers={"quick": {"timeout": 170, "pre": ["w == 2"], "parts": parts_over("cont", range(5))},
-                "thorough": {"timeout": 900, "parts": parts_product(parts_over("cont", range(5)), parts_over("level", range(2)))}},
-         sample=(6, 1, 3, 2),
-         bounds=f"every C02 fault class ({c02.NFAULT}) at top level / one level down, detected by whichever checking or rewriting pass catches it (incl. faults detected after arrays / bundles / instance bundles were already popped), x 5 continuations (the fifth: the parent's instance of the offending module is replaced by a valid module, then the parent is exported); repairs for 7 fault classes",
+                "thorough": {"timeout": 600, "parts": parts_product(parts_over("cont", range(5)), parts_over("level", range(2)))}},
+         sample=(6, 1, 3, 2, 0),
+         bounds=f"every C02 fault class ({c02.NFAULT}) at top level / one level down (the parent holding the offending module as a plain instance or as an instance array), detected by whichever checking or rewriting pass catches it (incl. faults detected after arrays / bundles / instance bundles were already popped), x 5 continuations (the fifth: the parent's instance of the offending module is replaced by a valid module, then the parent is exported); repairs for 7 fault classes",
          generalises="fault / location / continuation selectors (solver-enumerated)", outside="")
-def planted_fault(fault, level, cont, w):
+def planted_fault(fault, level, cont, w, via):
     P = env.pick
-    fault, level, cont, w = P(fault, 0, c02.NFAULT - 1), P(level, 0, 1), P(cont, 0, 4), P(w, 1, 2)
+    fault, level, cont, w, via = P(fault, 0, c02.NFAULT - 1), P(level, 0, 1), P(cont, 0, 4), P(w, 1, 2), P(via, 0, 1)
     with env.notrace():
-        return _planted(fault, level, cont, w)
+        return _planted(fault, level, cont, w, via)
 
 
 @harness("C08", args="nfail: int, a: int", pre=["1 <= nfail <= 3", "1 <= a <= 3"], tiers={"quick": {"timeout": 120}}, sample=(1, 2),
